@@ -16,6 +16,16 @@ CHECKS['C11'] = dict(
    text='Generated-input search over abstract programs (all 92 ops + NOP codes, nesting <= 4, variables, macros, both comptime forms, hoisted conditions) rendered under drawn spelling vectors (names / aliases / letter case / brace vs END_ / value prefixes / push sizes / comments incl. hostile comment bodies). Whatever compile_script accepts must equal the reference encoding byte for byte; unencodable programs must be rejected; Script.from_src must agree. Vacuity guards keep canonical acceptance >= 95 % and overall >= 50 %.',
    note='Trusts the reference assembler and lowering rules (vt/refasm.py, vt/render.py) written from language_spec.md / docs.md; rejections of encodable sources are outside the property and only counted.',
    design='3/C11')
+CHECKS['C10'] = dict(
+   technique='complete enumeration of integer ranges / power-of-two neighbourhoods / short strings / float exponent classes + Hypothesis big integers; differential against int.to_bytes/from_bytes and a hand-written binary32 decoder',
+   text='Generated-input search with exact oracles. Complete: all integers in [-2^17, 2^17], 2^k + d for k <= 16384 and |d| <= 3 (both signs), 2^k - 1 and -(2^k) to k = 2000, all 1- and 2-byte strings, all 512 float sign x exponent classes with boundary and drawn mantissas. Random: integers to 8192 bits biased to byte boundaries and >= 2^53, strings to 1 KiB, and the integer instructions (ADD/SUBTRACT/MULT/DIV/MOD_INTS, DIV_INT, MOD_INT, LESS, LESS_OR_EQUAL) through run_script at item size 4096 against Python integers.',
+   note='Non-minimal encodings are allowed by the property (only value, sign bit and round trip are required). Signalling-NaN payloads may be quieted by the platform. DIV/MOD are compared for non-negative dividends and positive divisors only (rounding direction for negatives is C06 territory).',
+   design='3/C10')
+CHECKS['C16'] = dict(
+   technique='complete boundary grid + Hypothesis 63-bit quadruples against the formulas of the statement, clock pinned by rebinding functions.time / tools.time',
+   text='Generated-input search with a specification-predicate oracle. Complete grid: constraint c x threshold x (t - c in -2..2) x ((t - now) - threshold in -2..2) x fractional / integral clock x minimal / padded / 9-byte encodings for the four instructions through run_script; ts x t x threshold grid for the three lock builders with op_verify on and off through run_auth_scripts; Hypothesis quadruples up to 63 bits concentrated on the boundaries. One open known finding (before-lock beyond slack) is excluded by its specific signature.',
+   note='now = int(clock); clocks non-negative; fractional clocks only below 2^32 (a double cannot hold a larger value with a fraction). CHECK_EPOCH with a negative threshold is a documented error and not compared.',
+   design='3/C16')
 NOT_YET = {}
 for i in range(1, 21):
     pid = 'C%02d' % i
